@@ -195,6 +195,21 @@ int overlapMain(void)
 		iv = ipos > -100000 ? arena + BASE + ipos : sepi;
 		hdr = hpos > -100000 ? arena + BASE + hpos : seph;
 		tag = tpos > -100000 ? arena + BASE + tpos : sept;
+		/* unwrapping needs a valid token: produce it with disjoint buffers, then lay it out */
+		if (!strcmp(f, "kwpU") || !strcmp(f, "dwpU") || !strcmp(f, "cheU"))
+		{
+			octet pt[64], tk[80], t8[8], k0[32], i0[16], h0[64];
+			vxRandBuf(pt, 64); memcpy(k0, key, 32); memcpy(i0, iv, 16); memcpy(h0, hdr, 64);
+			if (f[0] == 'k') { beltKWPWrap(tk, pt, len - 16, h0, k0, klen); memcpy(src, tk, len); }
+			else
+			{
+				if (f[0] == 'd') beltDWPWrap(tk, t8, pt, len, h0, hlen, k0, klen, i0); else beltCHEWrap(tk, t8, pt, len, h0, hlen, k0, klen, i0);
+				/* later placements may overwrite earlier ones when inputs overlap each other: the
+				   snapshots below are the logical inputs, and the specification decides acceptance */
+				memcpy(src, tk, len); memcpy(tag, t8, 8);
+				memcpy(key, k0, klen); memcpy(iv, i0, 16); memcpy(hdr, h0, hlen);
+			}
+		}
 		ssnap = (octet*)malloc(len + 64); memcpy(ssnap, src, len + 16);
 		memcpy(ksnap, key, klen); memcpy(isnap, iv, 16); memcpy(hsnap, hdr, hlen <= 64 ? hlen : 64); memcpy(tsnap, tag, 8);
 		outlen = len;
